@@ -2,6 +2,7 @@ package main
 
 import (
 	"fmt"
+	"path"
 	"strconv"
 	"strings"
 
@@ -154,6 +155,12 @@ func (m *mon) step(i int, line, out string) {
 	case "req":
 		if len(f) == 13 {
 			m.req(i, f[1:], out)
+		}
+	case "bridgeraw":
+		// the bridge may only reach handlers below /api/v1/
+		key, _ := unhexField(f[1])
+		if p := path.Join("/api/v1/", key); !strings.HasPrefix(p, "/api/v1/") && strings.HasPrefix(out, "br inv") {
+			m.add(i, "C12:bridge-scope-escape", fmt.Sprintf("bridged key %q resolves to %q outside /api/v1/ but a handler ran with the bridge's permission: %s", key, p, out))
 		}
 	}
 }
